@@ -103,16 +103,16 @@ Proof.
   destruct (nth_error W k) as [t|]; cbn [fst snd cr_out cr_fails].
   - repeat split; try reflexivity.
     + destruct (list_eqb (pc_msg c) (t_msg t)) eqn:Em, (list_eqb (pc_topic c) (t_topic t)) eqn:Et;
-        cbn [negb orb]; intros _; right; exists t; split; try reflexivity.
-      * exfalso; auto.
-      * right. intros E. apply list_eqb_iff in E. congruence.
-      * left. intros E. apply list_eqb_iff in E. congruence.
-      * left. intros E. apply list_eqb_iff in E. congruence.
+        cbn [negb orb]; intros Hne.
+      * exfalso. apply Hne. reflexivity.
+      * right. exists t. split; [reflexivity|]. right. intros E. apply list_eqb_iff in E. congruence.
+      * right. exists t. split; [reflexivity|]. left. intros E. apply list_eqb_iff in E. congruence.
+      * right. exists t. split; [reflexivity|]. left. intros E. apply list_eqb_iff in E. congruence.
     + intros [D|[t' [E D]]]; [discriminate|]. injection E as <-.
       destruct (list_eqb (pc_msg c) (t_msg t)) eqn:Em, (list_eqb (pc_topic c) (t_topic t)) eqn:Et;
         cbn [negb orb]; try discriminate.
       apply list_eqb_iff in Em, Et. destruct D; contradiction.
-    + intros f. destruct (negb _ || negb _); cbn [In]; intros [<-|[]]; reflexivity.
+    + intros f. destruct (negb _ || negb _); cbn [In]; [intros [<-|[]]; reflexivity|intros []].
   - repeat split; try reflexivity.
     + intros _. left. reflexivity.
     + intros _. discriminate.
@@ -137,6 +137,12 @@ Qed.
 Lemma count_open_cons : forall c l,
   count_open (c :: l) = ((if pub_consumes c then 1 else 0) + count_open l)%nat.
 Proof. intros c l. unfold count_open. cbn [filter]. destruct (pub_consumes c); reflexivity. Qed.
+
+Lemma count_open_le : forall l, (count_open l <= length l)%nat.
+Proof.
+  induction l as [|c l IH]; [cbn; lia|]. rewrite count_open_cons. cbn [length].
+  destruct (pub_consumes c); lia.
+Qed.
 
 (* the whole sequence: nothing ends it early; invocation i meets the counter
    at (number of earlier open-quit invocations) *)
@@ -183,12 +189,12 @@ Proof.
   destruct (pub_run_spec calls want 0) as (S1 & S2 & S3).
   destruct (run_calls (pub_step want) 0 calls) as [rs fin]. cbn [fst snd] in *. cbn zeta.
   rewrite Nat.add_0_l in S1. subst fin. split; [assumption|split].
-  - intros i c H. eexists. split; [apply S3; assumption|]. rewrite Nat.add_0_l. split.
+  - intros i c H. eexists. split; [apply (S3 i c H)|]. rewrite Nat.add_0_l. split.
     + intros Q. rewrite pub_step_canceled by assumption. reflexivity.
     + intros Q. destruct (pub_step_open want (count_open (firstn i calls)) c Q) as (_ & A & B & _).
       split; assumption.
   - intros Hw Hc.
-    assert (count_open calls <= length calls)%nat by (unfold count_open; apply filter_length_le).
+    pose proof (count_open_le calls).
     split.
     + apply cleanup_reports_iff; [assumption|lia].
     + intros L. apply cleanup_fewer; assumption.
@@ -212,4 +218,614 @@ Proof.
       specialize (IH (pre ++ [t])). rewrite <- app_assoc, app_length in IH. cbn [app length] in IH.
       rewrite Nat.add_1_r in IH. rewrite IH. reflexivity. }
   specialize (G want []). cbn [app length] in G. rewrite G. rewrite cleanup_same. reflexivity.
+Qed.
+
+(* ---------------------------------------------------------------- (un)subscribe mock *)
+
+(* What the mock takes for "the same filter set": the invocation has no repeated
+   filter, and it has exactly the members of the expectation.  A repetition
+   inside the expectation is immaterial (map keys). *)
+Definition same_filter_set_P (want call : list bstr) : Prop :=
+  NoDup call /\ forall x, In x call <-> In x want.
+
+Lemma sub_cmp_spec : forall fs todo,
+  (forall x, In x (fst (sub_cmp todo fs)) <-> In x todo /\ ~ In x fs) /\
+  (snd (sub_cmp todo fs) = [] <-> NoDup fs /\ incl fs todo) /\
+  (forall x, In x (snd (sub_cmp todo fs)) -> In x fs /\ (~ In x todo \/ ~ NoDup fs)).
+Proof.
+  induction fs as [|f r IH]; intros todo.
+  - cbn. split; [|split].
+    + intros x. tauto.
+    + split; [intros _; split; [constructor|intros x []]|reflexivity].
+    + intros x [].
+  - cbn [sub_cmp]. destruct (in_dec bstr_dec f todo) as [Hin|Hout].
+    + destruct (IH (remove bstr_dec f todo)) as (I1 & I2 & I3). split; [|split].
+      * intros x. split.
+        -- intros H. apply I1 in H. destruct H as [H1 H2]. apply in_remove in H1.
+           split; [tauto|]. intros [E|E]; [subst; tauto|tauto].
+        -- intros [H1 H2]. apply I1. cbn [In] in H2. split; [|tauto].
+           apply in_in_remove; [|assumption]. intros E. subst. tauto.
+      * split.
+        -- intros H. apply I2 in H. destruct H as [N I]. split.
+           ++ constructor; [|assumption]. intros F. apply I in F. apply in_remove in F. tauto.
+           ++ intros x [E|E]; [subst; assumption|]. apply I in E. apply in_remove in E. tauto.
+        -- intros [N I]. apply I2. inversion N; subst. split; [assumption|].
+           intros x Hx. apply in_in_remove; [intros E; subst; contradiction|]. apply I. right. assumption.
+      * intros x H. apply I3 in H. destruct H as [Hx [H|H]]; (split; [right; assumption|]).
+        -- destruct (bstr_dec x f) as [E|E].
+           ++ subst. right. intros N. inversion N; contradiction.
+           ++ left. intros F. apply H. apply in_in_remove; assumption.
+        -- right. intros N. inversion N; contradiction.
+    + destruct (IH todo) as (I1 & I2 & I3).
+      destruct (sub_cmp todo r) as [t w]. cbn [fst snd] in *. split; [|split].
+      * intros x. split.
+        -- intros H. apply I1 in H. destruct H as [H1 H2]. split; [assumption|].
+           intros [E|E]; [subst; contradiction|contradiction].
+        -- intros [H1 H2]. apply I1. cbn [In] in H2. tauto.
+      * split; [discriminate|]. intros [_ I]. exfalso. apply Hout, I. left. reflexivity.
+      * intros x [<-|H].
+        -- split; [left; reflexivity|left; assumption].
+        -- apply I3 in H. destruct H as [Hx [H|H]]; (split; [right; assumption|]); [left; assumption|].
+           right. intros N. inversion N; contradiction.
+Qed.
+
+Lemma sub_fails_nil_iff : forall T fs, sub_fails T fs = [] <-> same_filter_set_P T fs.
+Proof.
+  intros T fs. unfold sub_fails, same_filter_set_P.
+  destruct (sub_cmp_spec fs (nodup bstr_dec T)) as (I1 & I2 & _).
+  destruct (sub_cmp (nodup bstr_dec T) fs) as [miss wrong]. cbn [fst snd] in *. split.
+  - intros H. apply app_eq_nil in H. destruct H as [Hw Hm].
+    assert (wrong = []) as -> by (destruct wrong; [reflexivity|discriminate]).
+    assert (miss = []) as -> by (destruct miss; [reflexivity|discriminate]).
+    destruct (proj1 I2 eq_refl) as [N I]. split; [assumption|]. intros x. split.
+    + intros Hx. apply I in Hx. apply nodup_In in Hx. assumption.
+    + intros Hx. destruct (in_dec bstr_dec x fs) as [|No]; [assumption|]. exfalso.
+      apply (proj2 (I1 x)). split; [apply nodup_In; assumption|assumption].
+  - intros [N E].
+    assert (wrong = []) as ->.
+    { apply I2. split; [assumption|]. intros x Hx. apply nodup_In, E, Hx. }
+    assert (miss = []) as ->; [|reflexivity].
+    destruct miss as [|m miss]; [reflexivity|]. exfalso.
+    destruct (proj1 (I1 m) (or_introl eq_refl)) as [H1 H2]. apply H2, E. apply nodup_In in H1. assumption.
+Qed.
+
+Definition sub_deviates (want : list filterexp) (k : nat) (c : subcall) : Prop :=
+  nth_error want k = None \/
+  exists f, nth_error want k = Some f /\ ~ same_filter_set_P (f_topics f) (sc_filters c).
+
+Lemma sub_step_fatal : forall W k c,
+  sc_filters c = [] -> sub_step W k c = (mkres OFatal [FFatal], k).
+Proof. intros W k c H. unfold sub_step. rewrite H. reflexivity. Qed.
+
+Lemma sub_step_canceled : forall W k c,
+  sc_filters c <> [] -> sc_quit c = true -> sub_step W k c = (mkres (ORet CCanceled) [], k).
+Proof.
+  intros W k c H Q. unfold sub_step. destruct (sc_filters c); [contradiction|]. rewrite Q. reflexivity.
+Qed.
+
+Lemma sub_step_open : forall W k c,
+  sc_filters c <> [] -> sc_quit c = false ->
+  snd (sub_step W k c) = S k /\
+  cr_out (fst (sub_step W k c)) = ORet (match nth_error W k with Some f => f_err f | None => CNil end) /\
+  (cr_fails (fst (sub_step W k c)) <> [] <-> sub_deviates W k c).
+Proof.
+  intros W k c H Q. unfold sub_step, sub_deviates.
+  destruct (sc_filters c) as [|x fs] eqn:Ef; [contradiction|]. rewrite Q.
+  destruct (nth_error W k) as [f|]; cbn [fst snd cr_out cr_fails]; repeat split.
+  - intros Hne. right. exists f. split; [reflexivity|]. intros S. apply Hne, sub_fails_nil_iff, S.
+  - intros [D|[f' [E D]]]; [discriminate|]. injection E as <-. intros F. apply D, sub_fails_nil_iff, F.
+  - intros _. left. reflexivity.
+  - discriminate.
+Qed.
+
+Definition sub_consumes (c : subcall) : bool := nonempty (sc_filters c) && negb (sc_quit c).
+Definition count_sub (calls : list subcall) : nat := length (filter sub_consumes calls).
+
+(* the invocations that take place: up to and including the first one without filters *)
+Fixpoint sub_executed (calls : list subcall) : list subcall :=
+  match calls with
+  | [] => []
+  | c :: r => match sc_filters c with [] => [c] | _ :: _ => c :: sub_executed r end
+  end.
+
+Lemma count_sub_cons : forall c l,
+  count_sub (c :: l) = ((if sub_consumes c then 1 else 0) + count_sub l)%nat.
+Proof. intros c l. unfold count_sub. cbn [filter]. destruct (sub_consumes c); reflexivity. Qed.
+
+Lemma count_sub_le : forall l, (count_sub l <= length l)%nat.
+Proof.
+  induction l as [|c l IH]; [cbn; lia|]. rewrite count_sub_cons. cbn [length].
+  destruct (sub_consumes c); lia.
+Qed.
+
+Lemma sub_executed_le : forall l, (length (sub_executed l) <= length l)%nat.
+Proof.
+  induction l as [|c l IH]; [cbn; lia|]. cbn [sub_executed]. destruct (sc_filters c); cbn [length]; lia.
+Qed.
+
+Lemma sub_run_spec : forall calls W idx,
+  snd (run_calls (sub_step W) idx calls) = (idx + count_sub (sub_executed calls))%nat /\
+  length (fst (run_calls (sub_step W) idx calls)) = length (sub_executed calls) /\
+  forall i c, nth_error (sub_executed calls) i = Some c ->
+    nth_error (fst (run_calls (sub_step W) idx calls)) i
+    = Some (fst (sub_step W (idx + count_sub (firstn i (sub_executed calls))) c)).
+Proof.
+  induction calls as [|a r IH]; intros W idx.
+  - cbn. repeat split; try lia. intros [|i] c H; discriminate.
+  - cbn [run_calls sub_executed]. destruct (sc_filters a) as [|x fs] eqn:Ef.
+    + rewrite sub_step_fatal by assumption. cbn [cr_out fst snd length].
+      rewrite count_sub_cons. unfold sub_consumes. rewrite Ef. cbn. repeat split; try lia.
+      intros [|i] c H; [|destruct i; discriminate]. injection H as <-. cbn.
+      rewrite sub_step_fatal by assumption. reflexivity.
+    + assert (Hne : sc_filters a <> []) by (rewrite Ef; discriminate).
+      assert (Hs : exists e, sub_step W idx a = (mkres (ORet e) (cr_fails (fst (sub_step W idx a))),
+                                                 (idx + (if sub_consumes a then 1 else 0))%nat)).
+      { unfold sub_consumes. rewrite Ef. cbn [nonempty andb]. destruct (sc_quit a) eqn:Q.
+        - rewrite sub_step_canceled by assumption. eexists. cbn. rewrite Nat.add_0_r. reflexivity.
+        - destruct (sub_step_open W idx a Hne Q) as (A & B & _).
+          destruct (sub_step W idx a) as [[o fl] n]. cbn in *. subst. eexists. rewrite Nat.add_1_r. reflexivity. }
+      destruct Hs as [e Hs]. rewrite Hs. cbn [cr_out].
+      specialize (IH W (idx + (if sub_consumes a then 1 else 0))%nat).
+      destruct (run_calls (sub_step W) _ r) as [rs fin]. cbn [fst snd] in *.
+      destruct IH as (I1 & I2 & I3). rewrite count_sub_cons. repeat split.
+      * lia.
+      * cbn [length]. lia.
+      * intros [|i] c H.
+        -- cbn in H. injection H as <-. cbn [firstn nth_error]. change (count_sub []) with 0%nat.
+           rewrite Nat.add_0_r, Hs. reflexivity.
+        -- cbn [nth_error firstn] in *. rewrite count_sub_cons, (I3 i c H). do 3 f_equal. lia.
+Qed.
+
+Theorem subscribe_mock_reports_iff_proof :
+  forall (want : list filterexp) (calls : list subcall),
+    let obs := fst (sub_mock want calls) in
+    let cl := snd (sub_mock want calls) in
+    let ex := sub_executed calls in
+    length obs = length ex /\
+    (forall i c, nth_error ex i = Some c ->
+       exists r, nth_error obs i = Some r /\
+       let k := count_sub (firstn i ex) in
+       (sc_filters c = [] -> r = mkres OFatal [FFatal]) /\
+       (sc_filters c <> [] -> sc_quit c = true -> r = mkres (ORet CCanceled) []) /\
+       (sc_filters c <> [] -> sc_quit c = false ->
+          cr_out r = ORet (match nth_error want k with Some f => f_err f | None => CNil end) /\
+          (cr_fails r <> [] <-> sub_deviates want k c))) /\
+    (N.of_nat (length want) < two64 -> N.of_nat (length calls) < two64 ->
+       (cl <> [] <-> count_sub ex <> length want) /\
+       ((count_sub ex < length want)%nat ->
+          cl = [FMissing (N.of_nat (length want - count_sub ex))])).
+Proof.
+  intros want calls. unfold sub_mock.
+  destruct (sub_run_spec calls want 0) as (S1 & S2 & S3).
+  destruct (run_calls (sub_step want) 0 calls) as [rs fin]. cbn [fst snd] in *. cbn zeta.
+  rewrite Nat.add_0_l in S1. subst fin. split; [assumption|split].
+  - intros i c H. eexists. split; [apply (S3 i c H)|]. rewrite Nat.add_0_l. repeat split.
+    + intros E. rewrite sub_step_fatal by assumption. reflexivity.
+    + intros E Q. rewrite sub_step_canceled by assumption. reflexivity.
+    + destruct (sub_step_open want (count_sub (firstn i (sub_executed calls))) c H0 H1) as (_ & A & _).
+      assumption.
+    + destruct (sub_step_open want (count_sub (firstn i (sub_executed calls))) c H0 H1) as (_ & _ & B).
+      apply B.
+    + destruct (sub_step_open want (count_sub (firstn i (sub_executed calls))) c H0 H1) as (_ & _ & B).
+      apply B.
+  - intros Hw Hc.
+    pose proof (count_sub_le (sub_executed calls)). pose proof (sub_executed_le calls).
+    split.
+    + apply cleanup_reports_iff; [assumption|lia].
+    + intros L. apply cleanup_fewer; assumption.
+Qed.
+
+Definition subcall_of (f : filterexp) : subcall := mkSC false (f_topics f).
+
+(* a matching invocation sequence (same filters, in any order, none repeated): silent *)
+Theorem subscribe_mock_silent_on_match :
+  forall (want : list filterexp) (calls : list subcall),
+    Forall2 (fun f c => sc_quit c = false /\ sc_filters c <> [] /\
+                        same_filter_set_P (f_topics f) (sc_filters c)) want calls ->
+    sub_mock want calls = (map (fun f => mkres (ORet (f_err f)) []) want, []).
+Proof.
+  intros want calls F. unfold sub_mock.
+  assert (G : forall l cs, Forall2 (fun f c => sc_quit c = false /\ sc_filters c <> [] /\
+                        same_filter_set_P (f_topics f) (sc_filters c)) l cs ->
+              forall pre, run_calls (sub_step (pre ++ l)) (length pre) cs
+              = (map (fun f => mkres (ORet (f_err f)) []) l, length (pre ++ l))).
+  { induction 1 as [|f c l cs (Q & Ne & Sm) Hl IH]; intros pre.
+    - rewrite app_nil_r. reflexivity.
+    - cbn [map run_calls]. unfold sub_step at 1.
+      destruct (sc_filters c) as [|x fs] eqn:Ef; [contradiction|]. rewrite Q.
+      rewrite nth_error_app2, Nat.sub_diag by lia. cbn [nth_error cr_out].
+      apply sub_fails_nil_iff in Sm. rewrite Sm.
+      specialize (IH (pre ++ [f])). rewrite <- app_assoc, app_length in IH. cbn [app length] in IH.
+      rewrite Nat.add_1_r in IH. rewrite IH. reflexivity. }
+  specialize (G want calls F []). cbn [app length] in G. rewrite G. rewrite cleanup_same. reflexivity.
+Qed.
+
+(* ---------------------------------------------------------------- ReadSlices mock and stub *)
+
+Lemma rs_run_spec : forall n W idx,
+  snd (rs_run W idx n) = (idx + n)%nat /\
+  length (fst (rs_run W idx n)) = n /\
+  forall i, (i < n)%nat -> nth_error (fst (rs_run W idx n)) i = Some (fst (rs_step W (idx + i))).
+Proof.
+  induction n as [|n IH]; intros W idx.
+  - cbn. repeat split; intros; lia.
+  - cbn [rs_run]. assert (Hs : snd (rs_step W idx) = S idx) by (unfold rs_step; destruct (nth_error W idx); reflexivity).
+    destruct (rs_step W idx) as [r idx'] eqn:Es. cbn [snd] in Hs. subst idx'.
+    specialize (IH W (S idx)). destruct (rs_run W (S idx) n) as [rs fin]. cbn [fst snd] in *.
+    destruct IH as (I1 & I2 & I3). split; [lia|split; [cbn [length]; lia|]].
+    intros [|i] Hi.
+    + cbn [nth_error]. rewrite Nat.add_0_r, Es. reflexivity.
+    + cbn [nth_error]. rewrite I3 by lia. do 3 f_equal. lia.
+Qed.
+
+Theorem readslices_mock_reports_iff_proof :
+  forall (want : list transfer) (n : nat),
+    let obs := fst (rs_mock want n) in
+    let cl := snd (rs_mock want n) in
+    length obs = n /\
+    (forall i, (i < n)%nat ->
+       exists r, nth_error obs i = Some r /\
+       match nth_error want i with
+       | Some t => r = mkRs (t_msg t) (t_topic t) (t_err t) []      (* in order, silent *)
+       | None => rs_fails r = [FUnwanted] /\ rs_err r <> CNil       (* surplus *)
+       end) /\
+    (N.of_nat (length want) < two64 -> N.of_nat n < two64 ->
+       (cl <> [] <-> n <> length want) /\
+       ((n < length want)%nat -> cl = [FMissing (N.of_nat (length want - n))])).
+Proof.
+  intros want n. unfold rs_mock.
+  destruct (rs_run_spec n want 0) as (S1 & S2 & S3).
+  destruct (rs_run want 0 n) as [rs fin]. cbn [fst snd] in *. cbn zeta.
+  rewrite Nat.add_0_l in S1. subst fin. split; [assumption|split].
+  - intros i Hi. eexists. split; [apply S3; assumption|]. rewrite Nat.add_0_l. unfold rs_step.
+    destruct (nth_error want i); cbn; [reflexivity|split; [reflexivity|discriminate]].
+  - intros Hw Hn. split.
+    + apply cleanup_reports_iff; assumption.
+    + intros L. apply cleanup_fewer; assumption.
+Qed.
+
+(* the stub is a constant: nothing an invocation (or its caller) does can show in the next one *)
+Theorem readslices_stub_stateless :
+  forall fx : transfer, rs_stub fx = mkRs (t_msg fx) (t_topic fx) (t_err fx) [].
+Proof. reflexivity. Qed.
+
+(* ---------------------------------------------------------------- quit *)
+
+(* Every double that takes a quit channel: closed quit => ErrCanceled, silently,
+   and (mocks) without consuming an expectation.  The (un)subscribe doubles check
+   for "no filters" first. *)
+Theorem quit_closed_cancels_proof :
+  (forall W k c, pc_quit c = true -> pub_step W k c = (mkres (ORet CCanceled) [], k)) /\
+  (forall W k c, sc_filters c <> [] -> sc_quit c = true ->
+     sub_step W k c = (mkres (ORet CCanceled) [], k)) /\
+  (forall fx, pub_stub fx true = ORet CCanceled) /\
+  (forall fx fs, fs <> [] -> sub_stub fx true fs = ORet CCanceled) /\
+  (* and an open quit hands out the fixed value *)
+  (forall fx, pub_stub fx false = ORet fx) /\
+  (forall fx fs, fs <> [] -> sub_stub fx false fs = ORet fx).
+Proof.
+  split; [exact pub_step_canceled|split; [exact sub_step_canceled|]].
+  repeat split; intros; try reflexivity; destruct fs; try contradiction; reflexivity.
+Qed.
+
+(* canceled invocations in a whole sequence leave everything else as it was *)
+Theorem canceled_calls_are_invisible :
+  forall W calls idx,
+    snd (run_calls (pub_step W) idx calls) = snd (run_calls (pub_step W) idx (filter pub_consumes calls)).
+Proof.
+  intros W calls idx.
+  destruct (pub_run_spec calls W idx) as (-> & _). destruct (pub_run_spec (filter pub_consumes calls) W idx) as (-> & _).
+  f_equal. unfold count_open. clear. induction calls as [|c l IH]; [reflexivity|].
+  cbn [filter]. destruct (pub_consumes c) eqn:E; [|assumption]. cbn [filter]. rewrite E. cbn [length]. congruence.
+Qed.
+
+(* ---------------------------------------------------------------- exchange stub *)
+
+Lemma stops_open_last : forall e r,
+  ends_open (e :: r) = match r with [] => stops_open e | _ :: _ => ends_open r end.
+Proof. intros e [|x r]; reflexivity. Qed.
+
+Lemma exch_go_spec : forall s,
+  entries_ok s = true ->
+  exch_go s = (filter deliverable s, if ends_open s then LeftOpen else Closed).
+Proof.
+  induction s as [|e r IH]; [reflexivity|].
+  cbn [entries_ok exch_go filter]. rewrite stops_open_last. unfold deliverable at 1, stops_open.
+  destruct (kind_of e) eqn:K; intros H; try discriminate.
+  - rewrite (IH H). destruct r; reflexivity.
+  - destruct r; [reflexivity|discriminate].
+  - destruct r; [reflexivity|discriminate].
+  - rewrite (IH H). destruct r; reflexivity.
+Qed.
+
+Theorem exchange_script_proof :
+  forall s : list errclass,
+    script_accepted CNil s = true ->
+    exch_stub CNil s = ExChan (filter deliverable s) (if ends_open s then LeftOpen else Closed).
+Proof.
+  intros s H. unfold exch_stub. rewrite H. cbn in H. rewrite (exch_go_spec s H). reflexivity.
+Qed.
+
+(* with a non-nil first result there is no channel at all *)
+Theorem exchange_errfix :
+  forall (c : errclass) (s : list errclass),
+    c <> CNil -> script_accepted c s = true -> s = [] /\ exch_stub c s = ExErr c.
+Proof.
+  intros c s Hc H. unfold exch_stub. rewrite H.
+  destruct c; try contradiction; destruct s; try discriminate; split; reflexivity.
+Qed.
+
+(* the channel buffer (capacity = script length) is never exceeded: no send blocks *)
+Theorem exchange_never_blocks :
+  forall s, (length (fst (exch_go s)) <= length s)%nat.
+Proof.
+  induction s as [|e r IH]; [cbn; lia|]. cbn [exch_go].
+  destruct (kind_of e); try (destruct (exch_go r)); cbn [fst length] in *; lia.
+Qed.
+
+(* the constructor's check, said differently *)
+Lemma entries_ok_wellformed : forall s, entries_ok s = script_wellformed CNil s.
+Proof.
+  unfold script_wellformed.
+  induction s as [|e r IH]; [reflexivity|].
+  cbn [entries_ok forallb]. destruct r as [|x r].
+  - cbn. destruct e; reflexivity.
+  - change (removelast (e :: x :: r)) with (e :: removelast (x :: r)). cbn [existsb].
+    rewrite negb_orb. unfold stops_open at 1. rewrite IH.
+    destruct e; cbn; try reflexivity; try (destruct (forallb _ _ && negb _); reflexivity);
+      rewrite ?andb_false_r; reflexivity.
+Qed.
+
+Lemma script_accepted_wellformed : forall c s, script_accepted c s = script_wellformed c s.
+Proof.
+  intros c s. destruct c; try (destruct s; reflexivity). apply entries_ok_wellformed.
+Qed.
+
+(* ---------------------------------------------------------------- no panic *)
+
+Theorem no_panic_proof :
+  (* publish mock: every invocation returns *)
+  (forall want calls, Forall (fun r => is_ret (cr_out r) = true) (fst (pub_mock want calls))) /\
+  (* (un)subscribe mock: returns, or Fatalf exactly for an invocation without filters *)
+  (forall W k c, cr_out (fst (sub_step W k c)) <> OPanic /\
+                 (cr_out (fst (sub_step W k c)) = OFatal <-> sc_filters c = [])) /\
+  (forall want calls, Forall (fun r => cr_out r <> OPanic) (fst (sub_mock want calls))) /\
+  (* stubs: only the documented panic *)
+  (forall fx q, pub_stub fx q <> OPanic) /\
+  (forall fx q fs, sub_stub fx q fs = OPanic <-> fs = []) /\
+  (* exchange stub: the constructor panics exactly on the scripts it documents *)
+  (forall c s, exch_stub c s = ExRejected <-> script_wellformed c s = false).
+Proof.
+  assert (Hsub : forall W k c, cr_out (fst (sub_step W k c)) <> OPanic /\
+                 (cr_out (fst (sub_step W k c)) = OFatal <-> sc_filters c = [])).
+  { intros W k c. unfold sub_step. destruct (sc_filters c) eqn:Ef.
+    - cbn. split; [discriminate|tauto].
+    - destruct (sc_quit c); [|destruct (nth_error W k)]; cbn; (split; [discriminate|split; discriminate]). }
+  split; [|split; [exact Hsub|split; [|split; [|split]]]].
+  - intros want calls. unfold pub_mock.
+    destruct (pub_run_spec calls want 0) as (_ & S2 & S3).
+    destruct (run_calls (pub_step want) 0 calls) as [rs fin]. cbn [fst snd] in *.
+    apply Forall_forall. intros r Hr. apply In_nth_error in Hr. destruct Hr as [i Hi].
+    assert (i < length calls)%nat by (rewrite <- S2; apply nth_error_Some; congruence).
+    destruct (nth_error calls i) as [c|] eqn:Ec; [|apply nth_error_None in Ec; lia].
+    rewrite (S3 i c Ec) in Hi. injection Hi as <-. apply pub_step_ret.
+  - intros want calls. unfold sub_mock.
+    destruct (sub_run_spec calls want 0) as (_ & S2 & S3).
+    destruct (run_calls (sub_step want) 0 calls) as [rs fin]. cbn [fst snd] in *.
+    apply Forall_forall. intros r Hr. apply In_nth_error in Hr. destruct Hr as [i Hi].
+    assert (i < length (sub_executed calls))%nat by (rewrite <- S2; apply nth_error_Some; congruence).
+    destruct (nth_error (sub_executed calls) i) as [c|] eqn:Ec; [|apply nth_error_None in Ec; lia].
+    rewrite (S3 i c Ec) in Hi. injection Hi as <-. apply Hsub.
+  - intros fx q. discriminate.
+  - intros fx q fs. destruct fs; cbn; split; try discriminate; reflexivity.
+  - intros c s. unfold exch_stub. rewrite <- script_accepted_wellformed.
+    destruct (script_accepted c s); [|tauto].
+    split; [|discriminate]. destruct c; try discriminate. destruct (exch_go s). discriminate.
+Qed.
+
+(* ---------------------------------------------------------------- the case checker accepts the model *)
+
+Lemma bs_mem_iff : forall x l, bs_mem x l = true <-> In x l.
+Proof. intros x l. unfold bs_mem. destruct (in_dec bstr_dec x l); split; congruence. Qed.
+
+Lemma bs_incl_iff : forall a b, bs_incl a b = true <-> incl a b.
+Proof.
+  intros a b. unfold bs_incl. rewrite forallb_forall. split.
+  - intros H x Hx. apply bs_mem_iff, H, Hx.
+  - intros H x Hx. apply bs_mem_iff, H, Hx.
+Qed.
+
+Lemma bs_nodup_iff : forall l, bs_nodup l = true <-> NoDup l.
+Proof.
+  induction l as [|x l IH]; cbn [bs_nodup].
+  - split; [constructor|reflexivity].
+  - rewrite andb_true_iff, negb_true_iff, IH. split.
+    + intros [M N]. constructor; [|assumption]. intros F. apply bs_mem_iff in F. congruence.
+    + intros N. inversion N; subst. split; [|assumption].
+      destruct (bs_mem x l) eqn:E; [|reflexivity]. apply bs_mem_iff in E. contradiction.
+Qed.
+
+Lemma same_filter_set_iff : forall T fs, same_filter_set T fs = true <-> same_filter_set_P T fs.
+Proof.
+  intros T fs. unfold same_filter_set, same_filter_set_P.
+  rewrite !andb_true_iff, bs_nodup_iff, !bs_incl_iff. unfold incl. split.
+  - intros [[N A] B]. split; [assumption|]. intros x. split; auto.
+  - intros [N E]. repeat split; try assumption; intros x Hx; apply E, Hx.
+Qed.
+
+Lemma sub_fails_bool : forall T fs, negb (nonempty (sub_fails T fs)) = same_filter_set T fs.
+Proof.
+  intros T fs. destruct (same_filter_set T fs) eqn:E.
+  - apply same_filter_set_iff, sub_fails_nil_iff in E. rewrite E. reflexivity.
+  - destruct (sub_fails T fs) eqn:F; [|reflexivity]. exfalso.
+    apply sub_fails_nil_iff, same_filter_set_iff in F. congruence.
+Qed.
+
+Lemma all2_errclass_refl : forall l, all2 errclass_eqb l l = true.
+Proof. induction l as [|x l IH]; [reflexivity|]. cbn. rewrite errclass_eqb_refl. assumption. Qed.
+
+Lemma cleanup_ok_sound {E} : forall (W : list E) fin sur,
+  N.of_nat (length W) < two64 -> ((length W < fin)%nat -> sur = true) ->
+  cleanup_ok (skipn fin W) sur (cleanup (length W) fin) = true.
+Proof.
+  intros W fin sur Hw Hs. unfold cleanup_ok.
+  pose proof (skipn_length fin W) as L. destruct (skipn fin W) as [|x rest].
+  - cbn [length] in L. destruct (Nat.eq_dec fin (length W)) as [->|Ne].
+    + rewrite cleanup_same. apply orb_true_r.
+    + rewrite Hs by lia. reflexivity.
+  - cbn [length] in L. rewrite cleanup_fewer by (try assumption; lia).
+    cbn [all2 failure_eqb length]. rewrite L, N.eqb_refl. reflexivity.
+Qed.
+
+Lemma pub_sound_aux : forall calls W idx sur,
+  ((length W < idx)%nat -> sur = true) ->
+  exists sur',
+    pub_ok_calls (skipn idx W) sur calls (fst (run_calls (pub_step W) idx calls))
+    = Some (skipn (snd (run_calls (pub_step W) idx calls)) W, sur') /\
+    ((length W < snd (run_calls (pub_step W) idx calls))%nat -> sur' = true).
+Proof.
+  induction calls as [|a r IH]; intros W idx sur Hs.
+  - cbn. exists sur. split; [reflexivity|assumption].
+  - cbn [run_calls]. destruct (pc_quit a) eqn:Q.
+    + rewrite pub_step_canceled by assumption. cbn [cr_out].
+      destruct (IH W idx sur Hs) as (sur' & I1 & I2).
+      destruct (run_calls (pub_step W) idx r) as [rs fin]. cbn [fst snd] in *.
+      exists sur'. split; [|assumption]. cbn [pub_ok_calls]. rewrite Q. cbn. assumption.
+    + unfold pub_step at 1 2 3. rewrite Q. rewrite (nth_error_skipn W idx).
+      destruct (nth_error W idx) as [t|] eqn:En.
+      * cbn [cr_out].
+        assert (Hs' : (length W < S idx)%nat -> sur = true).
+        { intros L. assert (idx < length W)%nat by (apply nth_error_Some; congruence). lia. }
+        destruct (IH W (S idx) sur Hs') as (sur' & I1 & I2).
+        destruct (run_calls (pub_step W) (S idx) r) as [rs fin]. cbn [fst snd] in *.
+        exists sur'. split; [|assumption]. cbn [pub_ok_calls]. rewrite Q. cbn [cr_out cr_fails].
+        cbn [outcome_eqb]. rewrite errclass_eqb_refl. cbn [andb].
+        replace (Bool.eqb _ _) with true; [assumption|].
+        unfold no_fail. cbn [cr_fails].
+        destruct (list_eqb (pc_msg a) (t_msg t)), (list_eqb (pc_topic a) (t_topic t)); reflexivity.
+      * cbn [cr_out].
+        destruct (IH W (S idx) true (fun _ => eq_refl)) as (sur' & I1 & I2).
+        rewrite (nth_error_skipn_nil W idx En) in I1.
+        destruct (run_calls (pub_step W) (S idx) r) as [rs fin]. cbn [fst snd] in *.
+        exists sur'. split; [|assumption]. cbn [pub_ok_calls]. rewrite Q. cbn. assumption.
+Qed.
+
+Theorem pub_checker_sound :
+  forall want calls, N.of_nat (length want) < two64 ->
+    c20_ok (PubMockCase want calls (fst (pub_mock want calls)) (snd (pub_mock want calls))) = true.
+Proof.
+  intros want calls Hw. unfold c20_ok, pub_mock.
+  destruct (pub_sound_aux calls want 0 false) as (sur' & I1 & I2); [lia|].
+  destruct (run_calls (pub_step want) 0 calls) as [rs fin]. cbn [fst snd skipn] in *.
+  rewrite I1. cbn [finish]. apply cleanup_ok_sound; assumption.
+Qed.
+
+Lemma sub_sound_aux : forall calls W idx sur,
+  ((length W < idx)%nat -> sur = true) ->
+  exists sur',
+    sub_ok_calls (skipn idx W) sur calls (fst (run_calls (sub_step W) idx calls))
+    = Some (skipn (snd (run_calls (sub_step W) idx calls)) W, sur') /\
+    ((length W < snd (run_calls (sub_step W) idx calls))%nat -> sur' = true).
+Proof.
+  induction calls as [|a r IH]; intros W idx sur Hs.
+  - cbn. exists sur. split; [reflexivity|assumption].
+  - cbn [run_calls]. destruct (sc_filters a) as [|x fs] eqn:Ef.
+    { rewrite sub_step_fatal by assumption. cbn [cr_out fst snd sub_ok_calls]. rewrite Ef. cbn.
+      exists sur. split; [reflexivity|assumption]. }
+    assert (Hne : sc_filters a <> []) by (rewrite Ef; discriminate).
+    destruct (sc_quit a) eqn:Q.
+    + rewrite sub_step_canceled by assumption. cbn [cr_out].
+      destruct (IH W idx sur Hs) as (sur' & I1 & I2).
+      destruct (run_calls (sub_step W) idx r) as [rs fin]. cbn [fst snd] in *.
+      exists sur'. split; [|assumption]. cbn [sub_ok_calls]. rewrite Ef, Q. cbn. assumption.
+    + unfold sub_step at 1 2 3. rewrite Ef, Q. rewrite (nth_error_skipn W idx).
+      destruct (nth_error W idx) as [f|] eqn:En.
+      * cbn [cr_out].
+        assert (Hs' : (length W < S idx)%nat -> sur = true).
+        { intros L. assert (idx < length W)%nat by (apply nth_error_Some; congruence). lia. }
+        destruct (IH W (S idx) sur Hs') as (sur' & I1 & I2).
+        destruct (run_calls (sub_step W) (S idx) r) as [rs fin]. cbn [fst snd] in *.
+        exists sur'. split; [|assumption]. cbn [sub_ok_calls]. rewrite Ef, Q. cbn [cr_out cr_fails].
+        cbn [outcome_eqb]. rewrite errclass_eqb_refl. cbn [andb].
+        unfold no_fail. cbn [cr_fails]. rewrite sub_fails_bool, eqb_reflx. assumption.
+      * cbn [cr_out].
+        destruct (IH W (S idx) true (fun _ => eq_refl)) as (sur' & I1 & I2).
+        rewrite (nth_error_skipn_nil W idx En) in I1.
+        destruct (run_calls (sub_step W) (S idx) r) as [rs fin]. cbn [fst snd] in *.
+        exists sur'. split; [|assumption]. cbn [sub_ok_calls]. rewrite Ef, Q. cbn. assumption.
+Qed.
+
+Theorem sub_checker_sound :
+  forall unsub want calls, N.of_nat (length want) < two64 ->
+    c20_ok (SubMockCase unsub want calls (fst (sub_mock want calls)) (snd (sub_mock want calls))) = true.
+Proof.
+  intros unsub want calls Hw. unfold c20_ok, sub_mock.
+  destruct (sub_sound_aux calls want 0 false) as (sur' & I1 & I2); [lia|].
+  destruct (run_calls (sub_step want) 0 calls) as [rs fin]. cbn [fst snd skipn] in *.
+  rewrite I1. cbn [finish]. apply cleanup_ok_sound; assumption.
+Qed.
+
+Lemma rs_sound_aux : forall n W idx sur,
+  ((length W < idx)%nat -> sur = true) ->
+  exists sur',
+    rs_ok_calls (skipn idx W) sur n (fst (rs_run W idx n)) = Some (skipn (snd (rs_run W idx n)) W, sur') /\
+    ((length W < snd (rs_run W idx n))%nat -> sur' = true).
+Proof.
+  induction n as [|n IH]; intros W idx sur Hs.
+  - cbn. exists sur. split; [reflexivity|assumption].
+  - cbn [rs_run]. unfold rs_step. rewrite (nth_error_skipn W idx).
+    destruct (nth_error W idx) as [t|] eqn:En.
+    + assert (Hs' : (length W < S idx)%nat -> sur = true).
+      { intros L. assert (idx < length W)%nat by (apply nth_error_Some; congruence). lia. }
+      destruct (IH W (S idx) sur Hs') as (sur' & I1 & I2).
+      destruct (rs_run W (S idx) n) as [rs fin]. cbn [fst snd] in *.
+      exists sur'. split; [|assumption]. cbn [rs_ok_calls]. unfold rs_stub, rsres_eqb.
+      cbn [rs_msg rs_topic rs_err rs_fails all2]. rewrite !list_eqb_refl, errclass_eqb_refl. cbn. assumption.
+    + destruct (IH W (S idx) true (fun _ => eq_refl)) as (sur' & I1 & I2).
+      rewrite (nth_error_skipn_nil W idx En) in I1.
+      destruct (rs_run W (S idx) n) as [rs fin]. cbn [fst snd] in *.
+      exists sur'. split; [|assumption]. cbn. assumption.
+Qed.
+
+Theorem rs_checker_sound :
+  forall want n, N.of_nat (length want) < two64 ->
+    c20_ok (RsMockCase want n (fst (rs_mock want n)) (snd (rs_mock want n))) = true.
+Proof.
+  intros want n Hw. unfold c20_ok, rs_mock.
+  destruct (rs_sound_aux n want 0 false) as (sur' & I1 & I2); [lia|].
+  destruct (rs_run want 0 n) as [rs fin]. cbn [fst snd skipn] in *.
+  rewrite I1. cbn [finish]. apply cleanup_ok_sound; assumption.
+Qed.
+
+(* what an observer of the model's exchange stub would write down *)
+Definition exch_obs_of (r : exch_result) : exch_obs :=
+  match r with
+  | ExRejected => XPanic
+  | ExErr c => XErr c true
+  | ExChan ev fin => XChan ev (match fin with Closed => true | LeftOpen => false end)
+  end.
+
+Theorem exch_checker_sound :
+  forall ef s, c20_ok (ExchCase ef s [exch_obs_of (exch_stub ef s)]) = true.
+Proof.
+  intros ef s. unfold c20_ok. cbn [nonempty forallb andb]. rewrite andb_true_r.
+  unfold exch_stub. pose proof (script_accepted_wellformed ef s) as Hw.
+  destruct (script_accepted ef s) eqn:Ha.
+  - destruct ef; cbn [exch_obs_of exch_obs_ok]; rewrite <- Hw; try (rewrite errclass_eqb_refl; reflexivity).
+    cbn in Ha. rewrite (exch_go_spec s Ha). cbn [exch_obs_of exch_obs_ok].
+    rewrite all2_errclass_refl. destruct (ends_open s); reflexivity.
+  - cbn [exch_obs_of exch_obs_ok]. rewrite <- Hw. reflexivity.
+Qed.
+
+Theorem stub_checker_sound :
+  (forall fx q, c20_ok (PubStubCase fx q (pub_stub fx q)) = true) /\
+  (forall u fx q fs, c20_ok (SubStubCase u fx q fs (sub_stub fx q fs)) = true) /\
+  (forall fx n, c20_ok (RsStubCase fx (repeat (rs_stub fx) n)) = true).
+Proof.
+  split; [|split].
+  - intros fx q. cbn. apply errclass_eqb_refl.
+  - intros u fx q [|x fs]; cbn; [reflexivity|apply errclass_eqb_refl].
+  - intros fx n. cbn [c20_ok]. apply forallb_forall. intros o Ho. apply repeat_spec in Ho. subst.
+    unfold rs_stub, rsres_eqb. cbn [rs_msg rs_topic rs_err rs_fails all2].
+    rewrite !list_eqb_refl, errclass_eqb_refl. reflexivity.
 Qed.
